@@ -94,6 +94,20 @@ fn run(case: &Value) -> Vec<Value> {
                 evs.push(json!({"a":"SetCell","case":id,"s":si,"r":r,"c":c,"k":st["k"],"v":st["v"],
                     "outcome":outcome,"present":present,"text":text}));
             }
+            "RemoveCell" => {
+                let (si, r, c) = (u(st, "s") as usize, u(st, "r"), u(st, "c"));
+                let res = std::panic::catch_unwind(AssertUnwindSafe(|| {
+                    let removed = book.get_sheet_mut(&(si - 1)).unwrap().remove_cell((c, r));
+                    let present = book.get_sheet(&(si - 1)).unwrap().get_cell((c, r)).is_some();
+                    (removed, present)
+                }));
+                let (outcome, removed, present) = match res {
+                    Ok((a, b)) => ("ok", a, b),
+                    Err(_) => ("panic", false, false),
+                };
+                evs.push(json!({"a":"RemoveCell","case":id,"s":si,"r":r,"c":c,"outcome":outcome,
+                    "removed":removed,"present":present}));
+            }
             "SetActive" => {
                 let si = u(st, "s");
                 let res = std::panic::catch_unwind(AssertUnwindSafe(|| {
